@@ -1,6 +1,7 @@
 package main
 
 import (
+	"regexp"
 	"encoding/json"
 	"sync"
 
@@ -136,6 +137,7 @@ func cmdCheck(args []string) {
 	var gapRuns []*FuncResult
 	var fatal []string
 	funcsUnder := map[string]bool{}
+	skippedArity := map[string]bool{}
 	trusted := map[string]bool{}
 	notes := map[string]bool{}
 	inlined := map[string]bool{}
@@ -170,6 +172,11 @@ func cmdCheck(args []string) {
 				continue
 			}
 			if _, skip := f.Flags["notiny"]; skip && strings.Contains(tags, "tiny") {
+				continue
+			}
+			if a := genericArity(k); *tier != "thorough" && a > quickMaxArity {
+				// the generic package is generated from one template per family: the quick tier checks arities 0..3, the thorough tier all
+				skippedArity[k] = true
 				continue
 			}
 			r := verifyFunc(p, db, k, true)
@@ -377,6 +384,9 @@ func cmdCheck(args []string) {
 		"explanation":              "obligations are generated from the SSA of /repo's current sources and the //@ contracts in verif_contracts*.go; each is one SMT query; discharged = unsat",
 	}
 	ev.Assumptions = append(append([]string{}, globalAssumptions...), tl...)
+	if len(skippedArity) > 0 {
+		ev.Coverage["not_run_in_this_tier"] = fmt.Sprintf("%d contracts of generated generic helpers with arity > %d (instances of the same templates) are only checked by the thorough tier", len(skippedArity), quickMaxArity)
+	}
 	if !*noEvidence {
 		os.MkdirAll(filepath.Join(*verifDir, "evidence"), 0o755)
 		data, _ := json.MarshalIndent(ev, "", " ")
@@ -409,6 +419,20 @@ func verifyGapsOf(all []*FuncResult, key string) []string {
 		}
 	}
 	return nil
+}
+
+const quickMaxArity = 3
+
+var arityRe = regexp.MustCompile(`^generic\.(?:New)?(?:Filter|Query|Map)(\d+)`)
+
+// genericArity: arity of a generated generic helper (Filter7[...].With -> 7), -1 for everything else.
+func genericArity(key string) int {
+	m := arityRe.FindStringSubmatch(key)
+	if m == nil {
+		return -1
+	}
+	n, _ := strconv.Atoi(m[1])
+	return n
 }
 
 func hasProp(ps []string, id string) bool {
